@@ -69,7 +69,11 @@ func verify(f *os.File, opts signers.VerifyOpts) ([]*signers.Signature, error) {
 			return nil, errors.New("empty APK signing block")
 		}
 		for i, signer := range signerList {
-			sig, err := signer.Verify(nil)
+			var vinz *zipslicer.Directory
+			if !opts.NoDigests {
+				vinz = inz
+			}
+			sig, err := signer.Verify(vinz)
 			if err != nil {
 				return nil, fmt.Errorf("APK signature #%d: %w", i+1, err)
 			}
